@@ -59,9 +59,6 @@ class CanDynamicSchema: public ICanSchema {
             return std::nullopt;
         }
 
-        std::array<char, 4> bus_name = {0};
-        std::copy(msg_name.begin(), msg_name.end(), bus_name.begin());
-
         auto id = GetId(msg_name);
         if (!id.has_value()) {
             return std::nullopt;
